@@ -17,8 +17,10 @@ def replay_multi(args):
     for tag, m1, m2, tmo, want in (('both_reply', 'reply:7', 'reply:8', 100, 'Success:7|Success:8'), ('first_late', 'late:50', 'reply:8', 100, 'Success:9|Success:8'),
                                    ('second_late', 'reply:7', 'late:50', 100, 'Success:7|Success:9'), ('first_drops', 'drop', 'reply:8', None, 'SenderError|Success:8'),
                                    ('second_drops', 'reply:7', 'drop', 100, 'Success:7|SenderError'), ('first_holds', 'hold', 'reply:8', 100, 'Timeout|Success:8'),
-                                   ('second_holds', 'reply:7', 'hold', 100, 'Success:7|Timeout')):
-        log, r, t = run_native('multi', m1, tmo, False, m2)
+                                   ('second_holds', 'reply:7', 'hold', 100, 'Success:7|Timeout'),
+                                   # a target that is already gone: the send itself fails, nobody's reply may be attributed to it
+                                   ('first_dead', 'reply:7', 'reply:8', 100, 'SendErr')):
+        log, r, t = run_native('multi', m1, tmo, tag == 'first_dead', m2)
         obs[tag] = log
         if r != want:
             bad.append('%s: result %s, expected %s' % (tag, r, want))
